@@ -652,3 +652,86 @@ example : m3.srcModelIdxs (some [1]) = [1] ∧ m3.srcModelIdxs (some [2]) = [2] 
   decide
 
 end C04.Examples
+
+/-! ## `initial` vs. `value`: the value setter after fixing / re-floating -/
+
+/-- `make_fixed(None)` takes the *current* value as the new initial (and fixed) value; the explicit
+form takes the given one; in both cases the parameter is fixed with value = initial. -/
+theorem c04_make_fixed_initial (p : Param V) (v : V) :
+    (p.makeFixed none).initial = p.value ∧ (p.makeFixed none).value = p.value ∧
+    (p.makeFixed none).isfixed = true ∧
+    (p.makeFixed (some v)).initial = v ∧ (p.makeFixed (some v)).value = v ∧
+    (p.makeFixed (some v)).isfixed = true := by
+  refine ⟨rfl, rfl, rfl, ?_, ?_, ?_⟩ <;>
+  · simp only [Param.makeFixed]
+    repeat' split
+    all_goals rfl
+
+/-- re-floating without an explicit initial starts from the current value -/
+theorem c04_refloat_initial (p p' : Param V) (lo hi : Option V) (h : p.makeFloating none lo hi = .ok p') :
+    p'.initial = p.value ∧ p'.value = p.value ∧ p'.isfixed = false := by
+  unfold Param.makeFloating at h
+  cases hs : p.floatingSettings none lo hi with
+  | error e => rw [hs] at h; cases h
+  | ok t =>
+    rw [hs] at h
+    cases h
+    unfold Param.floatingSettings at hs
+    simp only [Option.getD_none] at hs
+    cases hlo : lo.or p.valmin with
+    | none => rw [hlo] at hs; cases hs
+    | some l =>
+      rw [hlo] at hs
+      simp only at hs
+      cases hhi : hi.or p.valmax with
+      | none => rw [hhi] at hs; cases hs
+      | some u =>
+        rw [hhi] at hs
+        simp only at hs
+        by_cases hout : outside p.value l u = true
+        · rw [if_pos hout] at hs; cases hs
+        · rw [if_neg hout] at hs
+          cases hs
+          exact ⟨rfl, rfl, rfl⟩
+
+/-- **the value setter of a well-formed parameter accepts exactly**: the fixed value when the parameter
+is fixed (in particular *not* an earlier initial value), the values inside the bounds when it floats. -/
+theorem c04_setter_accepts_iff (p : Param V) (hw : ParamWF p) (x : V) :
+    p.accepts x = Spec.accepts p x := by
+  unfold Param.accepts Spec.accepts Param.setValue
+  by_cases hf : p.isfixed = true
+  · simp only [hf, if_true, hw.1 hf]
+    cases hne : neV x p.initial <;> simp
+  · have hf' : p.isfixed = false := by simpa using hf
+    obtain ⟨lo, hi, hlo, hhi, _, _⟩ := hw.2 hf'
+    simp only [hf', hlo, hhi, Bool.false_eq_true, if_false]
+    by_cases h1 : x < lo
+    · simp [h1, outside]
+    · by_cases h2 : hi < x <;> simp [h1, h2, outside]
+
+theorem c04_fixed_accepts_iff (p : Param V) (hw : ParamWF p) (hf : p.isfixed = true) (x : V) :
+    p.accepts x = true ↔ x = p.value := by
+  rw [c04_setter_accepts_iff p hw x]
+  simp only [Spec.accepts, hf, if_true, Bool.not_eq_true']
+  exact neV_eq_false
+
+/-- the probe view of a coherent set is the specification's (so after *any* history, by `c04_refine`) -/
+theorem c04_probe_of_coherent {s : PSet V} (hs : Coherent s) (xs : List V) :
+    s.probe xs = Spec.probe s.params xs := by
+  unfold PSet.probe Spec.probe
+  apply List.map_congr_left
+  intro p hp
+  apply List.map_congr_left
+  intro x _
+  exact c04_setter_accepts_iff p (hs.wf p hp) x
+
+-- non-vacuity: move the value of `a` to 0 inside [0,2], fix with the None form: initial = value = 0,
+-- the old initial 1 is rejected, the fixed value 0 accepted; re-floating starts from 0
+example : ((PSet.run (PSet.empty : PSet Int)
+    [.add ⟨"a", 1, some 0, some 2, none⟩ false, .setv "a" 0, .fix [("a", none)]]).params.map
+      (fun p => (p.initial, p.value, p.isfixed, p.accepts 1, p.accepts 0))) = [(0, 0, true, false, true)] := by
+  decide
+example : ((PSet.run (PSet.empty : PSet Int)
+    [.add ⟨"a", 1, some 0, some 2, none⟩ false, .setv "a" 0, .fix [("a", none)],
+     .float [("a", (none, none, none))]]).params.map (fun p => (p.initial, p.value, p.isfixed))) =
+    [(0, 0, false)] := by decide
